@@ -238,19 +238,19 @@ APPEND = {
 }
 REPLACE = {
     "C14": ("BearerDefs.tla holds the value classes, the code-shaped Expected and the declarative property Holds (iff admission, status by cause, challenge content, "
-            "same token info); Bearer.tla holds the case space of 91 784 cases: the core product of 81 600 (header shapes x verifier outcomes incl. error-with-info x "
-            "scope lists incl. duplicates x expiry around the skew boundary x options) plus four slices. The time slice crosses 14 expiration classes (boundary +-1 ns, "
+            "same token info); Bearer.tla holds the case space of 92 354 cases: the core product of 81 600 (header shapes x verifier outcomes incl. error-with-info x "
+            "scope lists incl. duplicates x expiry around the skew boundary x options) plus five slices (time, header, scope-list, challenge, verifier-duration). The time slice crosses 14 expiration classes (boundary +-1 ns, "
             "hours, +-3Q, just beyond the int64-ns Duration range, year 1 / year 9999 / extreme time.Time values, zero time) with 10 skew classes (0, 1 ns, seconds, "
             "days-to-years, 3Q, MaxInt64, negative ones, MinInt64) on an exact three-scale integer arithmetic, where 'expired' means Expiration + skew before now in the "
             "integers. The header slice covers two Authorization lines and Unicode-space separators, for which only the 'only if' half is demanded. The scope slice covers "
             "look-alike and unsplit granted scopes and a duplicated required list. The challenge slice covers URL forms with query, comma and percent-escapes, read back "
             "with an RFC 9110 auth-param parser. TLC checks Holds(c, Expected(c)) on every case and that the parts are disjoint, and exports them; every case is run "
-            "through the real middleware under a frozen clock on seeded representatives (1 for the core and 3 for the slices in quick, 4 and 24 in thorough), each "
+            "through the real middleware under the synctest virtual clock (frozen, except in the verifier-duration slice of 570 cases, where the scripted verifier takes d - seconds; the token's remaining life -1 ns / exactly / +1 ns; life plus seconds - so a presentation has two instants: the handler must run only if the token is unexpired within skew at the instant the handler is entered, and admission is demanded only when it is unexpired at both arrival and decision) on seeded representatives (1 for the core and 3 for the slices in quick, 4 and 24 in thorough), each "
             "checked against its class in exact arithmetic, presented twice to one middleware instance with a cached TokenInfo, and the TLA+ monitor evaluates Holds on "
             "both outcomes. Exhaustive over the abstract space in both tiers."),
 }
 NOTE_REPLACE = {
-    "C14": ("Trusted: TLC; concretisation of the abstract classes and the challenge parser in the harness; synctest frozen clock. Negative ClockSkew is judged by the "
+    "C14": ("Trusted: TLC; concretisation of the abstract classes and the challenge parser in the harness; synctest virtual clock (instants checked against multiples of d). Negative ClockSkew is judged by the "
             "documented arithmetic (rejected only if Expiration + ClockSkew is before now)."),
 }
 for _k, _v in REPLACE.items():
